@@ -1,5 +1,6 @@
 import BobModel.Proofs.C12Events
 import BobModel.Proofs.C12Ops
+import BobModel.Proofs.C12Conv
 /-
 C12 — Checkouts converge to the recipe and never destroy user work.
 
@@ -202,6 +203,67 @@ theorem git_build_preserves_user_work (D : Dag) (U : Commit → Prop) (ops : Git
     (h : Present (fun k i => repoWork D U k.1 i) st0.fs i) :
     Present (fun k i => repoWork D U k.1 i) (cook (gitSem D U ops hc hU) fl indet new st0).1.fs i :=
   build_preserves_user_work_noprune _ _ (gitSem_keeps D U ops hc hU) fl indet new st0 i (fun _ _ => rfl) h
+
+/-! ## 3. converges -/
+
+/-- **A successful run of the checkout step converges.**  SCM contract `ScmConv`: running an SCM on
+nothing or on an untouched checkout yields the fresh checkout of its spec (the identity or a fast
+forward to upstream); a successful inline switch of an untouched checkout yields the fresh checkout of
+the new spec.  Hypotheses: equal digests mean that an untouched checkout of the old spec is one of the
+new spec; the new SCM directories are pairwise different; an import SCM with `prune` has no SCM below
+it; deterministic SCMs are immutable (`hdet`: an untouched checkout is the fresh one - needed only
+when the step is skipped).  Then from any consistent untouched workspace (`WsGood`, every state entry
+has its directory) with whatever old state - changed, removed, nested, moved, `--clean-checkout`
+invalidated SCMs, attic moves, failed switches - a run that reports no error leaves: every SCM
+directory of the new list with exactly the fresh checkout of its spec, no other SCM directory in the
+workspace proper (removed SCMs are gone), a state that records the new list, and again a consistent
+untouched workspace. -/
+theorem converges {Unt : σ → κ → Prop} {fresh : σ → κ} {sem : ScmSem σ κ} {new : List (NewEntry σ)}
+    (hc : ScmConv sem fresh Unt)
+    (hdig : ∀ (e : OldEntry σ) n, n ∈ new → e.dir = n.dir → e.digest = some n.digest →
+      ∀ s k, e.spec = some s → Unt s k → Unt n.spec k)
+    (hpw : new.Pairwise (fun a b => normComps a.dir ≠ normComps b.dir))
+    (hprune : ∀ n, n ∈ new → sem.prunes n.spec = true → ∀ m, m ∈ new →
+      isPrefix (normComps n.dir) (normComps m.dir) = true → m = n)
+    (fl : Flags) (indet : Bool) (hdet : indet = false → ∀ s k, Unt s k → k = fresh s)
+    (st0 : St σ κ) (hW : WsGood Unt st0)
+    (hfull : ∀ e, e ∈ st0.old → ∃ k, (Loc.ws (normComps e.dir), k) ∈ st0.fs)
+    (hok : (cook sem fl indet new st0).2 = none) :
+    (∀ n, n ∈ new → contentAt (cook sem fl indet new st0).1.fs (.ws (normComps n.dir)) = some (fresh n.spec)) ∧
+    (∀ p k, (Loc.ws p, k) ∈ (cook sem fl indet new st0).1.fs → ∃ n, n ∈ new ∧ normComps n.dir = p) ∧
+    (∀ e, e ∈ (cook sem fl indet new st0).1.old → ∃ n, n ∈ new ∧ e.dir = n.dir ∧ e.digest = some n.digest) ∧
+    WsGood Unt (cook sem fl indet new st0).1 :=
+  let h := cook_converges hc hdig hpw hprune fl indet hdet st0 hW hfull hok
+  ⟨h.contents, h.only, h.state, h.good⟩
+
+/-- **After any history** of recipe SCM edits and upstream moves (each build has its own SCM list,
+flags, SCM behaviour and notion of "fresh") with successful builds in between, an untouched source
+workspace equals a fresh checkout of the final specification: every SCM directory of the last list
+holds the fresh checkout (as of the last build), and no directory of a removed SCM remains. -/
+theorem converges_history {Unt : σ → κ → Prop} (bs : List (Build σ κ)) (st : St σ κ) (hW : WsGood Unt st)
+    (hfull : ∀ e, e ∈ st.old → ∃ k, (Loc.ws (normComps e.dir), k) ∈ st.fs)
+    (hok : ∀ b, b ∈ bs → BuildOk Unt b) (hall : AllOk bs st) (b : Build σ κ) (hb : bs.getLast? = some b) :
+    (∀ n, n ∈ b.new → contentAt (runBuilds bs st).fs (.ws (normComps n.dir)) = some (b.fresh n.spec)) ∧
+    (∀ p k, (Loc.ws p, k) ∈ (runBuilds bs st).fs → ∃ n, n ∈ b.new ∧ normComps n.dir = p) :=
+  let h := builds_converge bs st hW hfull hok hall b hb
+  ⟨h.contents, h.only⟩
+
+/-- the hypotheses are satisfiable: contents = the spec they were checked out from, starting from
+the project before the first build (no workspace yet, one attic directory left from earlier) -/
+example : ∃ (sem : ScmSem Nat Nat) (fresh : Nat → Nat) (Unt : Nat → Nat → Prop),
+    ScmConv sem fresh Unt ∧ WsGood Unt (σ := Nat)
+      { fs := [(.attic 0 [], 3)], plain := [], wsMissing := true, old := [],
+        atticReg := [((0, []), some 3)], nextAttic := 1, ops := [] } :=
+  ⟨{ canSwitch := fun _ _ => true, switch := fun _ n _ => (n, true), invoke := fun s _ => (s, true),
+     dirty := fun _ _ => false, expendable := fun _ _ => true, prunes := fun _ => false },
+   id, fun s k => k = s,
+   ⟨fun _ => rfl, fun _ => rfl, fun _ _ _ => rfl, fun _ _ _ _ _ => rfl⟩,
+   ⟨(by intro p k hm; simp at hm), (by simp [locs]), (by intro _ p k hm; simp at hm), (by simp),
+    (by
+      intro n p k hm
+      simp only [List.mem_singleton, Prod.mk.injEq, Loc.attic.injEq] at hm
+      show n < 1
+      omega)⟩⟩
 
 /-! ## 4. clean_src_expendable_only -/
 
